@@ -8,6 +8,12 @@
 //! rig's key inventory (`CryptoRig::key_ids`) and from the MAC entries on the wire.  A substitution
 //! that would not change the bytes (same key material at both levels) is not an alteration: skipped.
 //!
+//! Second strengthening round: a plugin listed in `eps2` owns a SECOND endpoint (entity id p + 10,
+//! `crypto_rig::EP2`) of the same kind and attributes, matched with the same remote endpoint.  At
+//! the endpoint levels the q / d / r / members of `to` of an action are entity ids; every entity
+//! decodes for itself (at submessage level: is the endpoint of THIS entity among the local endpoints
+//! the one decode_submessage call of its participant releases the submessage to).
+//!
 //! modes:  replay --in specs.jsonl   (behaviours dumped by TLC from CryptoKeys.tla)
 //!         random --seed --runs      (systematic sweep level x kind x OA x key length x direction x
 //!                                    payload lengths 0..67, random registration orders / omissions /
@@ -17,7 +23,7 @@ use std::collections::HashMap;
 use std::panic::{catch_unwind, AssertUnwindSafe};
 
 use rand::{rngs::StdRng, seq::SliceRandom, Rng, SeedableRng};
-use rustdds::verif::crypto_rig::{CryptoRig, Encoded, KeyIds, LocalCfg, Outcome};
+use rustdds::verif::crypto_rig::{CryptoRig, Encoded, KeyIds, LocalCfg, Outcome, EP2};
 use serde::{Deserialize, Serialize};
 use serde_json::{json, Value};
 
@@ -67,6 +73,9 @@ pub struct Act {
 pub struct RunSpec {
     pub cfg: Cfg,
     pub senders: Vec<usize>,
+    /// plugins that own a second endpoint (entity id p + EP2)
+    #[serde(default)]
+    pub eps2: Vec<usize>,
     pub acts: Vec<Act>,
 }
 
@@ -93,7 +102,7 @@ fn local_cfg(cfg: &Cfg, senders: &[usize], p: usize, k: usize) -> LocalCfg {
         "none" => 0,
         _ => 3 - kind,
     };
-    let writer = senders.contains(&p) == (cfg.dir == "w2r");
+    let writer = senders.contains(&(p % EP2)) == (cfg.dir == "w2r");
     match cfg.lvl.as_str() {
         "msg" => LocalCfg { writer, rtps: kind, rtps_oa: cfg.oa, sub: okind, sub_oa: false, pay: okind, k256: cfg.k256 },
         "submsg" => LocalCfg { writer, rtps: 0, rtps_oa: false, sub: kind, sub_oa: cfg.oa, pay: okind, k256: cfg.k256 },
@@ -359,8 +368,49 @@ struct Ct {
     sn: i64,
 }
 
+/// The crate keeps the endpoints registered for a remote participant in a `HashSet`; the order in
+/// which decode_submessage walks the candidates therefore differs from one plugin instance to the
+/// next (per-instance hash seed) and cannot be chosen from outside.  A run in which a participant
+/// has several endpoints is executed on ORDER_REPS independently constructed sets of plugin
+/// instances; a Decode line then aggregates the concrete decodes of all of them (counts added).
+/// Every act pushes exactly one event, so the event lists of the repetitions have the same shape.
+const ORDER_REPS: usize = 6;
+
 pub fn run_one(k: usize, spec: &RunSpec, ev: &mut Vec<Value>) -> Vec<Vec<u8>> {
-    let mut rig = CryptoRig::new(4); // index 0 unused: plugins are numbered 1..3 as in the model
+    let mut first: Vec<Value> = vec![];
+    let captured = run_once(k, spec, &mut first);
+    if !spec.eps2.is_empty() && spec.cfg.lvl == "submsg" {
+        for _ in 1..ORDER_REPS {
+            let mut more: Vec<Value> = vec![];
+            run_once(k, spec, &mut more);
+            if more.len() != first.len() {
+                continue;
+            }
+            for (a, b) in first.iter_mut().zip(more.iter()) {
+                if a["ev"] != "Decode" || b["ev"] != "Decode" || a["t"] != b["t"] || a["r"] != b["r"] {
+                    continue;
+                }
+                for f in ["n", "same", "other", "nodata", "panic"] {
+                    a[f] = json!(a[f].as_u64().unwrap_or(0) + b[f].as_u64().unwrap_or(0));
+                }
+                let had_bad = a["bad"].as_array().map(|x| !x.is_empty()).unwrap_or(false);
+                if !had_bad && b["bad"].as_array().map(|x| !x.is_empty()).unwrap_or(false) {
+                    a["bad"] = b["bad"].clone();
+                    a["dbg"] = b["dbg"].clone();
+                }
+            }
+        }
+        if let Some(r) = first.first_mut() {
+            r["instances"] = json!(ORDER_REPS);
+        }
+    }
+    ev.extend(first);
+    captured
+}
+
+fn run_once(k: usize, spec: &RunSpec, ev: &mut Vec<Value>) -> Vec<Vec<u8>> {
+    // index 0 unused: plugins are numbered 1..3 as in the model; second endpoints are entities 11..13
+    let mut rig = CryptoRig::new(EP2 + 4);
     let lvl = lvl_no(&spec.cfg.lvl);
     let gcm = spec.cfg.kind == "gcm";
     let mut held: HashMap<(usize, usize), usize> = HashMap::new();
@@ -368,6 +418,7 @@ pub fn run_one(k: usize, spec: &RunSpec, ev: &mut Vec<Value>) -> Vec<Vec<u8>> {
     let mut captured = vec![];
     let mut cfgv = serde_json::to_value(&spec.cfg).unwrap();
     cfgv["senders"] = json!(spec.senders);
+    cfgv["eps2"] = json!(spec.eps2);
     ev.push(json!({"ev":"Reset","run":k,"cfg":cfgv}));
     let guarded = |f: &mut dyn FnMut() -> Result<(), String>| -> (bool, String) {
         match catch_unwind(AssertUnwindSafe(|| f())) {
@@ -381,19 +432,21 @@ pub fn run_one(k: usize, spec: &RunSpec, ev: &mut Vec<Value>) -> Vec<Vec<u8>> {
             "RegLocal" => {
                 let c = local_cfg(&spec.cfg, &spec.senders, a.p, k);
                 let (ok, why) = guarded(&mut || rig.reg_local(a.p, c.clone()));
-                ev.push(json!({"ev":"RegLocal","p":a.p,"writer":c.writer,"ok":ok,"why":why}));
+                // ... and its second endpoint, if it has one
+                let (ok2, why2) = if spec.eps2.contains(&a.p) && lvl != 2 { guarded(&mut || rig.reg_local_second(a.p + EP2)) } else { (true, String::new()) };
+                ev.push(json!({"ev":"RegLocal","p":a.p,"writer":c.writer,"ok":ok,"why":why,"ok2":ok2,"why2":why2}));
             }
             "MatchPart" => {
                 let (ok, why) = guarded(&mut || rig.match_part(a.p, a.q));
                 ev.push(json!({"ev":"MatchPart","p":a.p,"q":a.q,"ok":ok,"why":why}));
             }
             "MatchEp" => {
-                let (ok, why) = guarded(&mut || rig.match_ep(a.p, a.q));
+                let (ok, why) = guarded(&mut || rig.match_ep_ent(a.p, a.q));
                 ev.push(json!({"ev":"MatchEp","p":a.p,"q":a.q,"ok":ok,"why":why}));
             }
             "Tokens" => {
                 let epl = a.t == "ep";
-                let (ok, why) = guarded(&mut || rig.send_tokens(epl, a.p, a.q, a.d));
+                let (ok, why) = guarded(&mut || rig.send_tokens_ent(epl, a.p, a.q, a.d));
                 if ok && (epl == (lvl != 2)) {
                     held.entry((a.d, a.p)).or_insert(a.q);
                 }
@@ -443,7 +496,7 @@ pub fn run_one(k: usize, spec: &RunSpec, ev: &mut Vec<Value>) -> Vec<Vec<u8>> {
                 // the other key ids that exist in the system (inventory of the rig + MAC entries on the wire)
                 let mut kids = KidCtx::default();
                 if a.t.starts_with("keyid_") && l.ok {
-                    let kp = rig.key_ids(ct.p);
+                    let kp = rig.key_ids_ent(ct.p);
                     kids.sib = match lvl {
                         0 => kp.sub,
                         1 => kp.pay,
@@ -455,8 +508,8 @@ pub fn run_one(k: usize, spec: &RunSpec, ev: &mut Vec<Value>) -> Vec<Vec<u8>> {
                         [ct.enc.wire[s], ct.enc.wire[s + 1], ct.enc.wire[s + 2], ct.enc.wire[s + 3]]
                     });
                     let peer = if a.s != ct.p { Some(a.s) } else { spec.senders.iter().copied().find(|x| *x != ct.p) };
-                    kids.peer = peer.and_then(|q| slot_kid(&rig.key_ids(q), lvl));
-                    kids.own = slot_kid(&rig.key_ids(a.r), lvl);
+                    kids.peer = peer.and_then(|q| slot_kid(&rig.key_ids_ent(q), lvl));
+                    kids.own = slot_kid(&rig.key_ids_ent(a.r), lvl);
                 }
                 let alts = alterations(&a.t, &ct.enc, &l, mine, alt.as_ref(), &kids);
                 let kid_dbg = if a.t.starts_with("keyid_") && l.ok && l.keyid.1 <= ct.enc.wire.len() {
@@ -469,7 +522,7 @@ pub fn run_one(k: usize, spec: &RunSpec, ev: &mut Vec<Value>) -> Vec<Vec<u8>> {
                 let mut bad: Vec<Value> = vec![];
                 let mut why: HashMap<String, usize> = HashMap::new();
                 for (w, lab) in &alts {
-                    match catch_unwind(AssertUnwindSafe(|| rig.decode(lvl, a.r, a.s, w, ct.frame))) {
+                    match catch_unwind(AssertUnwindSafe(|| rig.decode_ent(lvl, a.r, a.s, w, ct.frame))) {
                         Ok(Outcome::Plain(b)) => {
                             if same_up_to_padding(&b, &ct.enc.reference) {
                                 same += 1;
@@ -533,22 +586,36 @@ pub fn random_specs(seed: u64, runs: usize, _events: usize) -> Vec<RunSpec> {
         let senders: Vec<usize> = if rng.gen_bool(0.7) { vec![1] } else { vec![1, 3] };
         let receivers: Vec<usize> = (1..=3).filter(|p| !senders.contains(p)).collect();
         let is_msg = lvl == "msg";
+        // second endpoints (endpoint levels only): receiver entities = first endpoints + second ones
+        let eps2: Vec<usize> = if !is_msg && rng.gen_bool(0.4) {
+            let mut v: Vec<usize> = receivers.iter().copied().filter(|_| rng.gen_bool(0.6)).collect();
+            if v.is_empty() {
+                v.push(*receivers.choose(&mut rng).unwrap());
+            }
+            v
+        } else {
+            vec![]
+        };
+        let mut rents: Vec<usize> = receivers.clone();
+        rents.extend(eps2.iter().map(|r| r + EP2));
         // all registration calls, in a random order that respects what each call needs
         let mut pending: Vec<Act> = vec![];
         for p in 1..=3 {
             pending.push(Act { p, ..act("RegLocal") });
         }
         for s in &senders {
-            for r in &receivers {
+            for r in &rents {
                 for (p, q) in [(*s, *r), (*r, *s)] {
-                    pending.push(Act { p, q, ..act("MatchPart") });
+                    if *r < EP2 {
+                        pending.push(Act { p, q, ..act("MatchPart") });
+                    }
                     if !is_msg {
                         pending.push(Act { p, q, ..act("MatchEp") });
                     }
                 }
                 // tokens of the level under test from the sender; in the other direction too (harmless)
                 let t = if is_msg { "part" } else { "ep" };
-                let d = if rng.gen_bool(0.12) { *receivers.choose(&mut rng).unwrap() } else { *r };
+                let d = if rng.gen_bool(0.12) { *rents.choose(&mut rng).unwrap() } else { *r };
                 pending.push(Act { t: t.to_string(), p: *s, q: *r, d, ..act("Tokens") });
                 if rng.gen_bool(0.3) {
                     pending.push(Act { t: t.to_string(), p: *r, q: *s, d: *s, ..act("Tokens") });
@@ -574,7 +641,7 @@ pub fn random_specs(seed: u64, runs: usize, _events: usize) -> Vec<RunSpec> {
                 let ready = match a.a.as_str() {
                     "RegLocal" => true,
                     "MatchPart" => has(&issued, "RegLocal", a.p, 0),
-                    "MatchEp" => has(&issued, "MatchPart", a.p, a.q),
+                    "MatchEp" => has(&issued, "MatchPart", a.p % EP2, a.q % EP2),
                     _ => {
                         let m = if is_msg { "MatchPart" } else { "MatchEp" };
                         has(&issued, m, a.p, a.q) && has(&issued, m, a.d, a.p)
@@ -594,11 +661,13 @@ pub fn random_specs(seed: u64, runs: usize, _events: usize) -> Vec<RunSpec> {
         acts.append(&mut pending);
         // encode
         let p = *senders.choose(&mut rng).unwrap();
-        let mut to: Vec<usize> = receivers.iter().copied().filter(|_| rng.gen_bool(0.7)).collect();
+        // with second endpoints: more often a strict subset of the receiving entities
+        let p_to = if eps2.is_empty() { 0.7 } else { 0.5 };
+        let mut to: Vec<usize> = rents.iter().copied().filter(|_| rng.gen_bool(p_to)).collect();
         if lvl == "payload" {
             to.clear();
         } else if to.is_empty() {
-            to.push(*receivers.choose(&mut rng).unwrap());
+            to.push(*rents.choose(&mut rng).unwrap());
         }
         let frame = if dir == "r2w" {
             "data"
@@ -620,12 +689,14 @@ pub fn random_specs(seed: u64, runs: usize, _events: usize) -> Vec<RunSpec> {
         if oa && lvl != "payload" {
             classes.extend(["rmac_mine", "rkid_mine", "drop_mine", "rkid_swap", "keyid_rs"]);
         }
-        for r in 1..=3usize {
-            if r == p {
+        let mut decs: Vec<usize> = (1..=3usize).collect();
+        decs.extend(eps2.iter().map(|r| r + EP2));
+        for r in decs {
+            if r % EP2 == p {
                 continue;
             }
             for s in &senders {
-                if *s == r {
+                if *s == r % EP2 {
                     continue;
                 }
                 for t in &classes {
@@ -633,7 +704,7 @@ pub fn random_specs(seed: u64, runs: usize, _events: usize) -> Vec<RunSpec> {
                 }
             }
         }
-        out.push(RunSpec { cfg: Cfg { lvl, kind, oa, k256, dir, other: Some(other) }, senders, acts });
+        out.push(RunSpec { cfg: Cfg { lvl, kind, oa, k256, dir, other: Some(other) }, senders, eps2, acts });
     }
     out
 }
